@@ -280,6 +280,80 @@ func (w *gatedHyb) SetRuntime(k string, v interface{}, ttl time.Duration) error 
 	return w.in.(runtimeTier).SetRuntime(k, v, ttl)
 }
 
+// ---- single-fault injection below the gate (for hybrid stores: in the shared tier)
+
+var errInjected = errors.New("verif: injected transient storage fault")
+
+type faultCtl struct {
+	mu    sync.Mutex
+	armed bool
+}
+
+func (f *faultCtl) arm(v bool) { f.mu.Lock(); f.armed = v; f.mu.Unlock() }
+func (f *faultCtl) hit() bool {
+	f.mu.Lock()
+	defer f.mu.Unlock()
+	if f.armed {
+		f.armed = false
+		return true
+	}
+	return false
+}
+
+type faultyPlain struct {
+	in storage.Storage
+	f  *faultCtl
+}
+
+func (w *faultyPlain) Set(k string, v any, ttl time.Duration) error {
+	if w.f.hit() {
+		return errInjected
+	}
+	return w.in.Set(k, v, ttl)
+}
+func (w *faultyPlain) Get(k string) (any, error) {
+	if w.f.hit() {
+		return nil, errInjected
+	}
+	return w.in.Get(k)
+}
+func (w *faultyPlain) Delete(k string) error {
+	if w.f.hit() {
+		return errInjected
+	}
+	return w.in.Delete(k)
+}
+func (w *faultyPlain) Exists(k string) (bool, error) {
+	if w.f.hit() {
+		return false, errInjected
+	}
+	return w.in.Exists(k)
+}
+func (w *faultyPlain) SetExpiration(k string, ttl time.Duration) error { return w.in.SetExpiration(k, ttl) }
+func (w *faultyPlain) GetExpiration(k string) (time.Duration, error)   { return w.in.GetExpiration(k) }
+func (w *faultyPlain) CleanupExpired() error                           { return nil }
+func (w *faultyPlain) Close() error                                    { return nil }
+
+type faultyCAS struct{ faultyPlain }
+
+func (w *faultyCAS) SetNX(k string, v any, ttl time.Duration) (bool, error) {
+	if w.f.hit() {
+		return false, errInjected
+	}
+	return w.in.(storage.CASStore).SetNX(k, v, ttl)
+}
+func (w *faultyCAS) CompareAndSwap(k string, o, n any, ttl time.Duration) (bool, error) {
+	return w.in.(storage.CASStore).CompareAndSwap(k, o, n, ttl)
+}
+
+func wrapFault(in storage.Storage, f *faultCtl) storage.Storage {
+	p := faultyPlain{in: in, f: f}
+	if _, ok := in.(storage.CASStore); ok {
+		return &faultyCAS{p}
+	}
+	return &p
+}
+
 func wrap(in storage.Storage, g *gate) storage.Storage {
 	p := gatedPlain{in: in, g: g}
 	if _, ok := in.(runtimeTier); ok {
@@ -449,6 +523,9 @@ func parseCase(s string) (*kase, bool) {
 	ns := t.num()
 	for i := int64(0); i < ns && !t.e; i++ {
 		k.sched = append(k.sched, [2]int64{t.num(), t.num()})
+		if c := k.sched[len(k.sched)-1][0]; c > 2 {
+			t.e = true
+		}
 	}
 	if t.e || t.i != len(t.t) || nt > 64 {
 		return nil, false
@@ -540,7 +617,9 @@ type env struct {
 	g        *gate
 	ctx      context.Context
 	cancel   context.CancelFunc
-	bottom   storage.Storage // where markers must live
+	bottom   storage.Storage // where markers must live (behind the fault injector)
+	inner    storage.Storage // the same store without the fault injector (set-up and final view)
+	flt      *faultCtl
 	d        *dbl
 	perInst  map[int]storage.Storage
 	gens64   map[[2]int]*idgen.StorageIDGenerator[int64]
@@ -587,11 +666,14 @@ func (e *env) setup() error {
 	if k.store != "dbl" && !k.cas {
 		return errors.New("bad store/cas")
 	}
+	e.inner = e.bottom
+	e.flt = &faultCtl{}
+	e.bottom = wrapFault(e.inner, e.flt)
 	// the model looks a key up in the first matching entry: write in reverse so the first entry wins
 	for i := len(k.pre) - 1; i >= 0; i-- {
 		p := k.pre[i]
 		ttl := time.Duration(p.exp) * time.Millisecond
-		if err := e.bottom.Set(storeKey(p.kind, p.id), "pre", ttl); err != nil {
+		if err := e.inner.Set(storeKey(p.kind, p.id), "pre", ttl); err != nil {
 			return err
 		}
 	}
@@ -691,13 +773,6 @@ func (e *env) release(th *thread, kind int, idstr string, id uint64) error {
 	return e.gensStr[key].Release(idstr)
 }
 
-func errTok(err error) string {
-	s := strings.ReplaceAll(err.Error(), " ", "_")
-	if len(s) > 60 {
-		s = s[:60]
-	}
-	return "err:" + s
-}
 
 func (e *env) runThread(th *thread) {
 	g := e.g
@@ -726,7 +801,7 @@ func (e *env) runThread(th *thread) {
 					if id == "" && strings.Contains(err.Error(), "no available node ID") {
 						g.ev(fmt.Sprintf("exh.%d.%d", th.tid, o.kind))
 					} else {
-						g.ev(fmt.Sprintf("%s.%d", errTok(err), th.tid))
+						g.ev(fmt.Sprintf("err.%d", th.tid))
 					}
 				} else {
 					own, ownKind = id, o.kind
@@ -741,7 +816,7 @@ func (e *env) runThread(th *thread) {
 				if errors.Is(err, idgen.ErrIDExhausted) {
 					g.ev(fmt.Sprintf("exh.%d.%d", th.tid, o.kind))
 				} else {
-					g.ev(fmt.Sprintf("%s.%d", errTok(err), th.tid))
+					g.ev(fmt.Sprintf("err.%d", th.tid))
 				}
 			} else {
 				own, ownKind = s, o.kind
@@ -750,7 +825,7 @@ func (e *env) runThread(th *thread) {
 		case 'r':
 			s := idString(o.kind, o.id)
 			if err := e.release(th, o.kind, s, o.id); err != nil {
-				g.ev(fmt.Sprintf("%s.%d", errTok(err), th.tid))
+				g.ev(fmt.Sprintf("err.%d", th.tid))
 			} else {
 				g.ev(fmt.Sprintf("rel.%d.%d.%s", th.tid, o.kind, s))
 			}
@@ -775,11 +850,11 @@ func (e *env) runThread(th *thread) {
 				}
 				if err == nil {
 					g.ev(fmt.Sprintf("rel.%d.%d.%s", th.tid, ownKind, own))
-					own = ""
 				}
+				own = "" // the caller does not retry a failed release (model: own := none)
 			}
 			if err != nil {
-				g.ev(fmt.Sprintf("%s.%d", errTok(err), th.tid))
+				g.ev(fmt.Sprintf("err.%d", th.tid))
 			}
 		}
 	}
@@ -917,7 +992,11 @@ func execCase(cs string) (obs string) {
 			if s[1] < 0 || int(s[1]) >= len(k.threads) {
 				continue
 			}
+			if s[0] == 2 {
+				e.flt.arm(true) // the storage call of this step fails (if the step makes one)
+			}
 			g.grant(k.threads[s[1]])
+			e.flt.arm(false)
 		}
 		if k.free {
 			wg.Wait()
@@ -941,7 +1020,7 @@ func execCase(cs string) (obs string) {
 	g.mu.Unlock()
 	var view []string
 	for _, u := range e.universe() {
-		ex, err := e.bottom.Exists(storeKey(int(u[0]), u[1]))
+		ex, err := e.inner.Exists(storeKey(int(u[0]), u[1]))
 		if err != nil {
 			return "view-error"
 		}
